@@ -366,11 +366,16 @@ theorem nbrs_subset (l : List Nat) (x y : Nat) (h : y ∈ nbrs l x) : y ∈ l :=
     cases t with
     | nil => simp [nbrs] at h
     | cons b r =>
-      simp only [nbrs, List.mem_append] at h
-      rcases h with (h | h) | h
-      · split at h <;> simp at h; subst h; simp
-      · split at h <;> simp at h; subst h; simp
-      · exact List.mem_cons_of_mem _ (ih h)
+      simp only [nbrs] at h
+      split at h
+      · simp at h; subst h; simp
+      · split at h
+        · cases r with
+          | nil => simp at h; subst h; simp
+          | cons c r' =>
+            simp at h
+            rcases h with h | h <;> subst h <;> simp
+        · exact List.mem_cons_of_mem _ (ih h)
 
 theorem headAddrs_mem (l : List (Nat × Nat)) (a : Addr) (h : a ∈ headAddrs l) :
     ∃ q j, a = .sh q j ∧ (q, j) ∈ l := by
